@@ -37,7 +37,7 @@ def jobs(tier):
     n = 3 if tier == "quick" else 4
     for nested, nn in ((0, "none"), (1, "other-doc"), (2, "same-doc"), (4, "commit-in-transaction"), (5, "retry-loop-in-transaction")):
         j = {"id": f"O1.ledger.events{n}.nested-{nn}", "func": "VerifH_C15_Ledger",
-             "conf": {"events": n, "nested": nested, "rounds": 2}, "_obligation": "O1", "_covers": ["quiescent"], "unwind": 24}
+             "conf": {"events": n, "nested": nested, "rounds": 3}, "_obligation": "O1", "_covers": ["quiescent"], "unwind": 24}
         if nested == 5:
             j["_blocked_ok"] = True
         js.append(j)
@@ -54,7 +54,7 @@ PROPERTY = {
     "suites": [{"name": "ledger", "pkg": "net", "files": ["zz_verif_c15.go"], "common": ["intrinsics", "kvmodel", "kvtxn"],
                 "jobs": jobs, "redirects": REDIR, "overrides": OVR, "patches": PATCHES}],
     "bounds": {"documents": 2, "replicators": 1, "history": "3 events (quick) / 4 (thorough), each a commit (document, schema version, push outcome: inputs) or a retry round (outcome of every retried push: input)",
-               "concurrent events": "at most one per history: a commit during a retried push, or a commit / a retry-loop round between the reads and the commit of a bookkeeping transaction", "retry rounds after traffic stops": 2,
+               "concurrent events": "at most one per history: a commit during a retried push, or a commit / a retry-loop round between the reads and the commit of a bookkeeping transaction", "retry rounds after traffic stops": "3 (a debt still recorded and retriable after them is reported as BOUND-EXCEEDED, not as a violation)",
                "routing (O2)": "2 replicators, 2 collections, 2 (thorough 3) configuration calls with any collection subset and status, with / without a restart of the sender; map iteration orders as rotations"},
     "assumptions": ["the network push is a callback whose outcome is an input (source patch of pushLog regenerated from the current tree); concurrent events are injected only while a retried push is on the wire or at the commit of a transaction (run to completion there); schedules in which the injected operation would wait for a mutex are dropped (blocked paths)",
                     "the retry goroutine runs to completion right after retryReplicators returns (one schedule)",
